@@ -132,8 +132,11 @@ def search_counterexample(obligation, P):
     if not oracle:
         return None
     r = run_oracle(oracle, "thorough", 0)
-    if r.get("failures"):
-        return {"oracle": oracle, "case": r["failures"][0], "bound": r.get("bound")}
+    # failures of another property (the commit hang: C08, not applicable to this technique) are never a counterexample here
+    skip = tuple(P.get("ignore_prefix_all", ["hang:"]))
+    fails = [f for f in r.get("failures", []) if not str(f.get("case_id", "")).startswith(skip)]
+    if fails:
+        return {"oracle": oracle, "case": fails[0], "bound": r.get("bound")}
     return {"oracle": oracle, "case": None, "bound": r.get("bound"), "status": r.get("status"), "detail": r.get("detail", "")[:500], "cases": r.get("cases")}
 
 
